@@ -623,7 +623,7 @@ func TestVerifC13Walk(t *testing.T) {
 	out := vOpen()
 	defer out.Close()
 	r := vNewRand(0xC13A)
-	total := vBudget(300, 12)
+	total := vBudget(240, 12)
 	reached := map[string]int{}
 	for i := 0; i < total; i++ {
 		g := &wGen{r: r, budget: 2 + r.Intn(10), fail: []int{0, 8, 20, 45}[r.Intn(4)], reached: reached}
